@@ -1,5 +1,6 @@
 import SpoxModel.Lemmas.Dispatch
 import SpoxModel.Generated.ResultType
+import SpoxModel.Generated.VarDunders
 /-!
 # C17 — overloaded Python operators on Var follow numpy semantics
 
@@ -382,6 +383,79 @@ theorem neg_matches (s : Bool × Bool) (d : Nat) (hd : d ∈ [0, 1, 2, 3]) (x : 
     simp only [hdisp, Bool.and_eq_true, beq_iff_eq] at h'
     obtain ⟨rfl, rfl⟩ := h'
     rfl
+
+/-! ## The wiring: Python's operators reach the dispatcher methods the theorems are about -/
+
+open Generated.VarDunders in
+/-- Obligation (tie G): the operator dunders `Var` defines are exactly these bare delegations to
+    `Var._operator_dispatcher` (method, operand order, arity) - no other operator dunder (`__pow__`,
+    `__iadd__`, comparisons ...), no body with anything besides the delegation (an early check, a cache) -
+    and the two dispatcher classes define exactly the methods `Model/Dispatch.lean` describes. -/
+theorem var_dunders_wired :
+    wires =
+      [⟨"__add__", "add", false, 2⟩, ⟨"__and__", "and_", false, 2⟩, ⟨"__floordiv__", "floordiv", false, 2⟩,
+       ⟨"__invert__", "not_", false, 1⟩, ⟨"__mul__", "mul", false, 2⟩, ⟨"__neg__", "neg", false, 1⟩,
+       ⟨"__or__", "or_", false, 2⟩, ⟨"__radd__", "add", true, 2⟩, ⟨"__rand__", "and_", true, 2⟩,
+       ⟨"__rfloordiv__", "floordiv", true, 2⟩, ⟨"__rmul__", "mul", true, 2⟩, ⟨"__ror__", "or_", true, 2⟩,
+       ⟨"__rsub__", "sub", true, 2⟩, ⟨"__rtruediv__", "truediv", true, 2⟩, ⟨"__rxor__", "xor", true, 2⟩,
+       ⟨"__sub__", "sub", false, 2⟩, ⟨"__truediv__", "truediv", false, 2⟩, ⟨"__xor__", "xor", false, 2⟩]
+    ∧ numpyDispatcher = ["__init__", "_promote", "add", "and_", "floordiv", "mul", "neg", "not_", "or_", "sub", "truediv", "xor"]
+    ∧ defaultDispatcher = ["_not_impl", "_not_impl_unary", "add=_not_impl", "and_=_not_impl", "floordiv=_not_impl",
+        "mul=_not_impl", "neg=_not_impl_unary", "not_=_not_impl_unary", "or_=_not_impl", "sub=_not_impl",
+        "truediv=_not_impl", "xor=_not_impl"] := by decide +kernel
+
+def Op.ofMethod : String → Option Op
+  | "add" => some .add | "sub" => some .sub | "mul" => some .mul | "truediv" => some .truediv
+  | "floordiv" => some .floordiv | "neg" => some .neg | "and_" => some .and_ | "or_" => some .or_
+  | "xor" => some .xor | "not_" => some .not_ | _ => none
+
+/-- the name Python looks up for `a <op> b` / `<op> a` on the left operand, and for the reflected call -/
+def fwdName : Op → String
+  | .add => "__add__" | .sub => "__sub__" | .mul => "__mul__" | .truediv => "__truediv__"
+  | .floordiv => "__floordiv__" | .neg => "__neg__" | .and_ => "__and__" | .or_ => "__or__"
+  | .xor => "__xor__" | .not_ => "__invert__"
+def revName : Op → String
+  | .add => "__radd__" | .sub => "__rsub__" | .mul => "__rmul__" | .truediv => "__rtruediv__"
+  | .floordiv => "__rfloordiv__" | .and_ => "__rand__" | .or_ => "__ror__" | .xor => "__rxor__"
+  | .neg => "<no reflected form>" | .not_ => "<no reflected form>"
+
+def lookup (name : String) : Option (Op × Bool) :=
+  (Generated.VarDunders.wires.find? (fun w => w.dunder == name)).bind
+    (fun w => (Op.ofMethod w.method).map (fun m => (m, w.swapped)))
+
+/-- the wiring of `Var` as read from its class body on this run -/
+def genWiring : Wiring := ⟨fun op => lookup (fwdName op), fun op => lookup (revName op)⟩
+
+def allOps : List Op := [.add, .sub, .mul, .truediv, .floordiv, .neg, .and_, .or_, .xor, .not_]
+
+theorem genWiring_fwd : ∀ op ∈ allOps, genWiring.fwd op = some (op, false) := by decide +kernel
+theorem genWiring_rev : ∀ op ∈ [Op.add, .sub, .mul, .truediv, .floordiv, .and_, .or_, .xor],
+    genWiring.rev op = some (op, true) := by decide +kernel
+
+/-- **`a <op> b` written with Python's operators is `dispatch … op a b`** - the left operand stays on
+    the left whichever of the two is the `Var` (so every theorem about `dispatch` is about the Python
+    expression): for all binary operators, all settings (and outside a block), all operands of which at
+    least one is a `Var`. -/
+theorem operator_is_dispatch (np : NpInfo) (settings : Option (Bool × Bool)) (op : Op)
+    (hop : op ∈ [Op.add, .sub, .mul, .truediv, .floordiv, .and_, .or_, .xor]) (a b : Operand)
+    (h : Operand.isVar a = true ∨ Operand.isVar b = true) :
+    applyOperator genWiring np settings op a b = dispatch np settings op a b := by
+  have hall : ∀ o ∈ [Op.add, .sub, .mul, .truediv, .floordiv, .and_, .or_, .xor], o ∈ allOps := by decide
+  have hf := genWiring_fwd op (hall op hop)
+  have hr := genWiring_rev op hop
+  cases a with
+  | var d => simp [applyOperator, hf]
+  | _ =>
+    cases b with
+    | var d => simp [applyOperator, hr]
+    | _ => simp [Operand.isVar] at h
+
+/-- the unary operators `-a`, `~a` on a `Var` -/
+theorem unary_operator_is_dispatch (np : NpInfo) (settings : Option (Bool × Bool)) (op : Op)
+    (hop : op = .neg ∨ op = .not_) (d : Nat) (b : Operand) :
+    applyOperator genWiring np settings op (.var d) b = dispatch np settings op (.var d) b := by
+  have hf := genWiring_fwd op (by rcases hop with rfl | rfl <;> simp [allOps])
+  simp [applyOperator, hf]
 
 /-! ## What does not hold (listed findings), with the part that does -/
 
